@@ -70,6 +70,10 @@ struct ClientEnd {
     last_genuine_down: u64,
     /// a disconnect datagram of this client object was forwarded to the server (the one way a server session ends without a datagram to the client)
     up_disconnect_forwarded: bool,
+    /// a datagram of this client reached the relay's front address (it has moved on from a silent first address)
+    seen_at_front: bool,
+    /// a disconnect datagram went to the silent address after the client had moved on to the real one
+    misdirected_disconnect: bool,
     // message model: [direction][channel] ; direction 0 = client->server
     sent: [[Vec<Bytes>; 3]; 2],
     got_ordered: [usize; 2],
@@ -79,6 +83,9 @@ struct ClientEnd {
 struct Net {
     front: UdpSocket,
     front_addr: SocketAddr,
+    /// an address nobody answers at (listed first in some tokens: the client must fail over to the real one)
+    dead: UdpSocket,
+    dead_addr: SocketAddr,
     server_sock_addr: SocketAddr,
     st: NetcodeServerTransport,
     server: RenetServer,
@@ -110,13 +117,13 @@ enum Op {
 }
 
 impl Net {
-    fn spawn(&mut self, id: u64) -> Result<usize, Fail> {
+    fn spawn(&mut self, id: u64, silent_first_address: bool) -> Result<usize, Fail> {
         let csock = sock()?;
         let addr = csock.local_addr().unwrap();
         let back = sock()?;
         let back_addr = back.local_addr().unwrap();
         let ud = user_data(id);
-        let token = ConnectToken::generate(self.now, PROTO, 600, id, self.timeout_s as i32, vec![self.front_addr], Some(&ud), &key(1)).map_err(|e| Fail::new("token", e.to_string()))?;
+        let token = ConnectToken::generate(self.now, PROTO, 600, id, self.timeout_s as i32, if silent_first_address { vec![self.dead_addr, self.front_addr] } else { vec![self.front_addr] }, Some(&ud), &key(1)).map_err(|e| Fail::new("token", e.to_string()))?;
         let transport = NetcodeClientTransport::new(self.now, ClientAuthentication::Secure { connect_token: token }, csock).map_err(|e| Fail::new("client_transport", e.to_string()))?;
         let client = RenetClient::new(stack_config(false));
         self.clients.push(ClientEnd {
@@ -144,6 +151,8 @@ impl Net {
             last_genuine_up: self.tick,
             last_genuine_down: self.tick,
             up_disconnect_forwarded: false,
+            seen_at_front: false,
+            misdirected_disconnect: false,
             sent: Default::default(),
             got_ordered: [0; 2],
             got_set: Default::default(),
@@ -154,8 +163,21 @@ impl Net {
     /// Read everything waiting on the relay's sockets.
     fn pump(&mut self) {
         let mut buf = [0u8; 2048];
+        while let Ok((n, from)) = self.dead.recv_from(&mut buf) {
+            // nobody answers here; a client still knocking at this address announces its own disconnect here as well
+            if let Some(c) = self.clients.iter_mut().find(|c| c.addr == from) {
+                if n > 0 && buf[0] & 0x0F == 6 {
+                    if c.seen_at_front {
+                        c.misdirected_disconnect = true;
+                    } else {
+                        c.expect_dgram_up_by = None;
+                    }
+                }
+            }
+        }
         while let Ok((n, from)) = self.front.recv_from(&mut buf) {
             if let Some(c) = self.clients.iter_mut().find(|c| c.addr == from) {
+                c.seen_at_front = true;
                 c.raw_up.push(buf[..n].to_vec());
             }
         }
@@ -472,6 +494,9 @@ impl Net {
                 // (a timeout and disconnect_all send a disconnect datagram themselves)
                 c.expect_dgram_down_by = None;
             }
+            if c.misdirected_disconnect {
+                return Err(Fail::new("disconnect_sent_to_abandoned_address", format!("client object {ci} announced its disconnect at the silent first address of its token although it had moved on to the server's address")));
+            }
             if let Some(by) = c.expect_dgram_up_by {
                 if tick > by {
                     return Err(Fail::new("disconnect_not_pushed_down", format!("client object {ci} was disconnected by the message layer but no netcode disconnect datagram left it within 2 ticks")));
@@ -515,7 +540,7 @@ impl Property for C20 {
         "fault_enumeration"
     }
     fn rule(&self) -> String {
-        "A case runs the real NetcodeServerTransport and 1-3 NetcodeClientTransports (plus reconnecting client objects with new tokens) on loopback UDP sockets through an in-path relay that the harness thread pumps after every transport call. Relay fault decision per (client, direction, datagram): forward / drop / duplicate / delay 1-6 ticks (hence reorder) / flip one bit / forward and replay an old datagram of that link; whole-silence periods; application traffic on all three default channels in both directions and broadcasts; disconnects decided by RenetClient::disconnect, NetcodeClientTransport::disconnect, RenetServer::disconnect, NetcodeServerTransport::disconnect_all, by silence (timeouts) and by the receiving message layer itself while it processes a datagram (a peer sends more than the receiver's budget of the extra channel 3, or on a channel only the sender knows); reconnects. Oracles: right after every NetcodeServerTransport::update the ids the message layer reports connected equal the ids the netcode layer holds (client_addr, connected_clients), no disconnected connection is left, and equal the ids open in the ServerEvent stream, which alternates per id and only names ids that hold a token; every message obtained over the full stack satisfies the ordered-prefix / unordered-at-most-once / unreliable-membership oracles of its session; after the faults stop and timeout + 3 s of fault-free ticks every session for which a disconnect was decided anywhere has ended on both sides, and every session that stayed healthy has obtained all reliable messages; in 'gentle' cases (no disconnect operation, no silence, at least one genuine datagram per direction forwarded in every third of the timeout) nobody is ever disconnected whatever else the relay does. Non-trivial: at least one corrupted or replayed datagram after a handshake completed and at least one relay fault. Distinct = hash of the decoded operation trace.".into()
+        "A case runs the real NetcodeServerTransport and 1-3 NetcodeClientTransports (plus reconnecting client objects with new tokens; some tokens list a silent address before the real one, so the client fails over first) on loopback UDP sockets through an in-path relay that the harness thread pumps after every transport call. Relay fault decision per (client, direction, datagram): forward / drop / duplicate / delay 1-6 ticks (hence reorder) / flip one bit / forward and replay an old datagram of that link; whole-silence periods; application traffic on all three default channels in both directions and broadcasts; disconnects decided by RenetClient::disconnect, NetcodeClientTransport::disconnect, RenetServer::disconnect, NetcodeServerTransport::disconnect_all, by silence (timeouts) and by the receiving message layer itself while it processes a datagram (a peer sends more than the receiver's budget of the extra channel 3, or on a channel only the sender knows); reconnects. Oracles: right after every NetcodeServerTransport::update the ids the message layer reports connected equal the ids the netcode layer holds (client_addr, connected_clients), no disconnected connection is left, and equal the ids open in the ServerEvent stream, which alternates per id and only names ids that hold a token; every message obtained over the full stack satisfies the ordered-prefix / unordered-at-most-once / unreliable-membership oracles of its session; after the faults stop and timeout + 3 s of fault-free ticks every session for which a disconnect was decided anywhere has ended on both sides, and every session that stayed healthy has obtained all reliable messages; in 'gentle' cases (no disconnect operation, no silence, at least one genuine datagram per direction forwarded in every third of the timeout) nobody is ever disconnected whatever else the relay does. Non-trivial: at least one corrupted or replayed datagram after a handshake completed and at least one relay fault. Distinct = hash of the decoded operation trace.".into()
     }
     fn assumptions(&self) -> Vec<String> {
         vec![
@@ -528,7 +553,7 @@ impl Property for C20 {
         PbtCfg { cases: tier.pick(15_000, 300_000), max_len: tier.pick(1200, 5000), shrink_ms: 120_000 }
     }
     fn required_labels(&self) -> Vec<&'static str> {
-        vec!["relay_corrupt", "relay_replay", "relay_drop", "relay_dup", "relay_delay", "client_disconnect", "transport_disconnect", "server_disconnect", "disconnect_all", "timeout_by_silence", "gentle_case", "reconnect", "event_connected", "event_disconnected", "e2e_messages", "poison_to_client", "poison_to_server", "server_msg_layer_disconnect", "client_msg_layer_disconnect"]
+        vec!["relay_corrupt", "relay_replay", "relay_drop", "relay_dup", "relay_delay", "client_disconnect", "transport_disconnect", "server_disconnect", "disconnect_all", "timeout_by_silence", "gentle_case", "reconnect", "event_connected", "event_disconnected", "e2e_messages", "poison_to_client", "poison_to_server", "server_msg_layer_disconnect", "client_msg_layer_disconnect", "silent_first_address"]
     }
     fn run_choices(&self, ctx: &mut Ctx) -> Outcome {
         renetcode::verif::set_rng_seed(Some(ctx.src.u16() as u64 | 1));
@@ -536,6 +561,8 @@ impl Property for C20 {
         let front_addr = front.local_addr().unwrap();
         let ssock = sock()?;
         let server_sock_addr = ssock.local_addr().unwrap();
+        let dead = sock()?;
+        let dead_addr = dead.local_addr().unwrap();
         let now = Duration::from_secs(500);
         let timeout_s = ctx.src.pick(&[3u64, 2, 5]);
         let tick_ms = ctx.src.pick(&[50u64, 16, 100]);
@@ -551,6 +578,8 @@ impl Property for C20 {
         let mut net = Net {
             front,
             front_addr,
+            dead,
+            dead_addr,
             server_sock_addr,
             st,
             server: RenetServer::new(stack_config(true)),
@@ -569,7 +598,12 @@ impl Property for C20 {
         let n0 = 1 + ctx.src.below(3);
         ctx.op(&(n0, timeout_s, tick_ms, gentle));
         for i in 0..n0 {
-            net.spawn(900 + i as u64)?;
+            // some tokens list a silent address first: the client connects to the real one only after failing over
+            let silent_first = timeout_s <= 3 && ctx.src.chance(40);
+            if silent_first {
+                ctx.label("silent_first_address");
+            }
+            net.spawn(900 + i as u64, silent_first)?;
         }
         let max_ops = ctx.tier.pick(250, 1200);
         let mut ops = 0;
@@ -718,7 +752,7 @@ impl Property for C20 {
                             if net.clients.iter().any(|c| c.id == id) {
                                 ctx.label("reconnect");
                             }
-                            net.spawn(id)?;
+                            net.spawn(id, false)?;
                         }
                         Op::Spawn { id }
                     } else {
